@@ -268,8 +268,13 @@ def shapes(tier, seed):
         out.append({'h': 'interleave', 'impl': impl, 'gens': [[2, 1]], 'mid': 'stat', 'pick': True})
         out.append({'h': 'interleave', 'impl': impl, 'gens': [[1], [1]], 'mid': ['pull', {'recs': [1]}], 'pick': True})
     if not q:
-        out.append({'h': 'threads', 'ops': [small['shell'], small['stat'], small['shell']], 'preempt': 2, 'yields': False, 'max_paths': 2000000})
+        # three threads (coarse switch points, preemption bound 2), split into 32 parts; bounded per part
+        for i in range(32):
+            out.append({'h': 'threads', 'ops': [small['shell'], small['stat'], small['shell']], 'preempt': 2, 'yields': False, 'max_paths': 150000, 'xpart': [i, 32, 10]})
+        # statement-level switch points with preemption bound 2
         for a, b in pairs:
-            out.append({'h': 'threads', 'ops': [small[a], small[b]], 'preempt': 2, 'yields': True, 'max_paths': 2000000})
-        out.append({'h': 'async', 'ops': [small['shell'], small['stat'], small['shell']], 'max_paths': 2000000})
+            for i in range(16):
+                out.append({'h': 'threads', 'ops': [small[a], small[b]], 'preempt': 2, 'yields': True, 'max_paths': 150000, 'xpart': [i, 16, 10]})
+        for i in range(8):
+            out.append({'h': 'async', 'ops': [small['shell'], small['stat'], small['shell']], 'max_paths': 400000, 'xpart': [i, 8, 6]})
     return out
